@@ -37,8 +37,8 @@ func pickCand(rt *rapid.T, cs []cand, label string) cand {
 	return cs[rapid.IntRange(0, len(cs)-1).Draw(rt, label)]
 }
 
-// candidates returns the value pool of a variable. rnd is a generated in-range offset.
-func candidates(rt *rapid.T, v *varInfo) []cand {
+// candidates returns the value pool of a variable. off selects one extra in-range value.
+func candidates(v *varInfo, off uint64) []cand {
 	switch v.kind {
 	case "bool":
 		return []cand{
@@ -67,9 +67,11 @@ func candidates(rt *rapid.T, v *varInfo) []cand {
 			}
 		}
 		// a generated in-range value
-		span := uint64(hi) - uint64(lo)
-		off := rapid.Uint64Range(0, span).Draw(rt, "offset")
-		valid[int64(uint64(lo)+off)] = true
+		if span := uint64(hi) - uint64(lo); span == math.MaxUint64 {
+			valid[int64(uint64(lo)+off)] = true
+		} else {
+			valid[int64(uint64(lo)+off%(span+1))] = true
+		}
 		for _, x := range sortedKeys(valid) {
 			class := "valid"
 			if x == lo || x == hi {
@@ -130,8 +132,11 @@ func candidates(rt *rapid.T, v *varInfo) []cand {
 				valid[x] = true
 			}
 		}
-		off := rapid.Uint64Range(0, hi-lo).Draw(rt, "offset")
-		valid[lo+off] = true
+		if span := hi - lo; span == math.MaxUint64 {
+			valid[lo+off] = true
+		} else {
+			valid[lo+off%(span+1)] = true
+		}
 		for _, x := range sortedKeys(valid) {
 			class := "valid"
 			if x == lo || x == hi {
@@ -155,6 +160,7 @@ func candidates(rt *rapid.T, v *varInfo) []cand {
 		cs = append(cs, either("18446744073709551616", "outside", nUint(hi)))
 		// negative values: MySQL clamps an unsigned variable to its minimum (with a warning) or rejects
 		cs = append(cs, either("-1", "outside", nUint(lo)), either("-5", "outside", nUint(lo)), either("-9223372036854775808", "outside", nUint(lo)))
+		cs = append(cs, either("-3.0", "outside", nUint(lo)))
 		cs = append(cs, reject("'abc'", "invalid"), reject("''", "invalid"), reject("NULL", "null"))
 		if lo <= 1 && hi >= 2 {
 			cs = append(cs, reject("1.5", "invalid"))
